@@ -50,10 +50,16 @@ type Op struct {
 type Prog struct {
 	Ops []Op
 	Ret string
+	// Close: the handler first closes the session's output (Session.Close), before it
+	// reads or writes anything
+	Close bool
 }
 
 func (p Prog) Enc() string {
 	f := []string{p.Ret}
+	if p.Close {
+		f = append(f, "c")
+	}
 	for _, o := range p.Ops {
 		if o.Read {
 			f = append(f, "r")
@@ -223,6 +229,9 @@ func ServeHook(ns string, local, remote jid.JID, body []byte, progs []Prog, mk f
 		}
 		k++
 		res.Invs = append(res.Invs, Invocation{Start: start.Copy()})
+		if p.Close {
+			_ = s.Close()
+		}
 		return Exec(p, t, &res.Invs[len(res.Invs)-1])
 	})
 	var h xmpp.Handler = rec
@@ -260,6 +269,8 @@ func ErrClass(err error) string {
 		return "se:" + se.Err
 	case errors.As(err, &we):
 		return "handler"
+	case errors.Is(err, xmpp.ErrOutputStreamClosed):
+		return "output-closed"
 	case errors.As(err, &ste):
 		return "handler"
 	case errors.Is(err, ErrHandler), err == io.ErrUnexpectedEOF, strings.Contains(err.Error(), "received IQ with invalid payload"):
